@@ -30,7 +30,7 @@ for prop in sorted(os.listdir(SRC)):
                         print(prop, ch, "DOES NOT APPLY - rebase by hand")
                         shutil.copy(os.path.join(d, "patch.diff"), os.path.join(out, "patch.orig.diff"))
                     continue
-            diff = subprocess.run(["git", "diff"], cwd=w, capture_output=True, text=True).stdout
+            diff = subprocess.run(["git", "diff", "HEAD"], cwd=w, capture_output=True, text=True).stdout
             open(os.path.join(out, "patch.diff"), "w").write(diff)
         finally:
             subprocess.run(["git", "-C", "/repo", "worktree", "remove", "--force", w], capture_output=True)
